@@ -7,6 +7,8 @@ func extraEngines(prop string) []Engine {
 		return []Engine{&byzEngine{prop: prop}}
 	case "C13":
 		return []Engine{&diskEngine{}}
+	case "C01", "C06", "C07", "C08", "C09", "C11":
+		return []Engine{&tallEngine{prop: prop}}
 	case "C12":
 		return []Engine{&c12Engine{}, &c12Engine{race: true}}
 	}
